@@ -66,6 +66,14 @@ type Cfg struct {
 	// the application's stores answer ReadState with a nil ClientState for a client that has nothing stored
 	// (documented as legal); invisible to the model, where an absent state and an empty one are the same thing
 	NilState bool `json:"nil_state,omitempty"`
+	// Core.Localizer: "" none, "empty" a catalogue that knows no key (answers "" for everything, as the interface
+	// documents for a miss), "partial" one that knows every second key and translates it to the default text.
+	// Invisible to the model: a miss falls back to the default text, a hit here IS the default text.
+	Localizer string `json:"localizer,omitempty"`
+	// the documented application stack: ModuleListMiddleware (puts the loaded-module list into the request's view
+	// data) and a data-injecting application middleware in front of the routes; harness only - the model's page
+	// data is compared key by key for the keys the model names
+	ModList bool `json:"modlist,omitempty"`
 	DefaultPaths bool     `json:"default_paths"` // Config.Paths' OK / NotOK targets left at authboss.New()'s defaults ("/")
 	OneTime      bool     `json:"onetime"`       // the user type implements totp2fa.UserOneTime (TOTP replay protection)
 }
@@ -274,6 +282,15 @@ func (h *hasher) CompareHashAndPassword(hash, pw string) error {
 	return h.inner.CompareHashAndPassword(hash, pw)
 }
 
+type partialLoc struct{ mode string }
+
+func (p partialLoc) Localizef(_ context.Context, key authboss.LocalizationKey, args ...any) string {
+	if p.mode == "partial" && len(key.ID)%2 == 0 {
+		return fmt.Sprintf(key.Default, args...)
+	}
+	return ""
+}
+
 // error handler that, unlike the silent default, also writes a 500
 type writingErrorHandler struct{ log authboss.Logger }
 
@@ -365,6 +382,9 @@ func newWorld(cfg Cfg, seed int64) (*World, error) {
 		ab.Config.Core.ErrorHandler = defaults.NewErrorHandler(w.log)
 	}
 	ab.Config.Core.Hasher = w.hash
+	if cfg.Localizer != "" {
+		ab.Config.Core.Localizer = partialLoc{cfg.Localizer}
+	}
 	m := &ab.Config.Modules
 	m.BCryptCost = bcrypt.MinCost
 	m.MailNoGoroutine = true
@@ -473,9 +493,16 @@ func newWorld(cfg Cfg, seed int64) (*World, error) {
 		mux.Handle(cfg.Mount+"/", http.StripPrefix(cfg.Mount, router))
 	}
 	mux.Handle("/app/", http.HandlerFunc(w.appStack))
+	var stack http.Handler = mux
+	if cfg.ModList {
+		stack = authboss.ModuleListMiddleware(ab)(http.HandlerFunc(func(rw http.ResponseWriter, r *http.Request) {
+			authboss.MergeDataInRequest(&r, authboss.HTMLData{"viewer_browser": r.Header.Get("X-Browser")})
+			mux.ServeHTTP(rw, r)
+		}))
+	}
 	w.h = http.HandlerFunc(func(rw http.ResponseWriter, r *http.Request) {
 		rw.Header().Set("X-Browser-Echo", r.Header.Get("X-Browser"))
-		ab.LoadClientStateMiddleware(mux).ServeHTTP(rw, r)
+		ab.LoadClientStateMiddleware(stack).ServeHTTP(rw, r)
 	})
 	return w, nil
 }
@@ -626,6 +653,7 @@ type Req struct {
 	BadBody     bool        `json:"badbody"`
 	RawOverride string      `json:"-"`
 	Hdr         [][2]string `json:"-"`
+	Wire        string      `json:"-"`
 }
 
 var routePaths = map[string]string{
@@ -701,8 +729,20 @@ func (w *World) do(r Req) (o respObs) {
 	ct := ""
 	if r.Method != "GET" {
 		if w.cfg.API {
-			if r.BadBody {
+			if r.BadBody && len(r.Form) == 0 {
 				body = strings.NewReader("{not json")
+			} else if r.BadBody {
+				// well-formed JSON that does not decode into the reader's map of strings (one value is a
+				// boolean) - and that carries every submitted field, secrets included, in its first bytes
+				m := map[string]interface{}{}
+				for _, kv := range r.Form {
+					if _, dup := m[kv[0]]; !dup {
+						m[kv[0]] = kv[1]
+					}
+				}
+				m["zz_remember"] = true
+				b, _ := json.Marshal(m)
+				body = strings.NewReader(string(b))
 			} else {
 				m := map[string]string{}
 				for _, kv := range r.Form {
@@ -729,7 +769,11 @@ func (w *World) do(r Req) (o respObs) {
 	if w.cfg.API {
 		ct = "application/json"
 	}
-	hr := httptest.NewRequest(r.Method, "http://site.test"+target, body)
+	wire := r.Method
+	if r.Wire != "" {
+		wire = r.Wire // a method the model has no name for, sent where the library treats all methods alike
+	}
+	hr := httptest.NewRequest(wire, "http://site.test"+target, body)
 	if ct != "" {
 		hr.Header.Set("Content-Type", ct)
 	}
@@ -767,6 +811,15 @@ func (w *World) do(r Req) (o respObs) {
 		// only the first document: a second write after the response was committed appends to the body
 		if json.NewDecoder(strings.NewReader(rec.Body.String())).Decode(&d) == nil {
 			o.Page, o.Data = d.Page, d.Data
+			if w.cfg.ModList && o.Data != nil {
+				// what the surrounding application stack itself put into the view data is not the library's
+				// page data: taken out again - after checking that it is THIS request's
+				if vb, ok := o.Data["viewer_browser"]; ok && vb != r.Browser {
+					o.Data["foreign_view_data"] = vb
+				}
+				delete(o.Data, "viewer_browser")
+				delete(o.Data, authboss.DataModules)
+			}
 		}
 	}
 	return
